@@ -35,6 +35,7 @@ HAND = {
     'far': (';1<<40\n', False, b''),
     'warn': ('def m a, b {\n ;a\n}\nm 0, 0\nloop:\n;loop\n', False, b''),
     'bad': ('nomacro 1\n', False, b''),
+    'warn_stl': ('def m a, b {\n ;a\n}\nstl.startup\nm 0, 0\nstl.output "Hi"\nstl.loop\n', True, b''),
     'deeprec': ('def r n {\n rep(n, i) r n-1\n}\nr 3\nend:\n;end\n', False, b''),
 }
 CORPUS = [('print_tests/hello_world.fj', True, b''), ('print_tests/hello_no-stl.fj', False, b''),
@@ -77,6 +78,40 @@ def gen_case(rng, progs, idx):
     return {'id': idx, 'prog': name, 'opts': o}
 
 
+def directed_cases(progs, first_id):
+    """families that are always run"""
+    base = {'width': None, 'version': None, 'no_stl': False, 'outfile': True, 'debug': None, 'werror': False,
+            'preset': None, 'silent': True, 'flags': None, 'max_depth': None}
+    out = []
+
+    def add(fam, prog, **kw):
+        if prog in progs:
+            o = dict(base)
+            o['no_stl'] = not progs[prog][1]
+            o.update(kw)
+            out.append({'id': first_id + len(out), 'prog': prog, 'opts': o, 'family': fam})
+    # (d) --lzma_preset with the version left to its default (3 because of -o), and spelled out
+    for prog in ('hello_world', 'hexprint', 'print_as_digit', 'tiny'):
+        for preset in (0, 1, 9):
+            add('preset-default-version', prog, preset=preset)
+        add('preset-explicit-version', prog, preset=0, version=3)
+    # -f with the default version
+    add('flags-default-version', 'hello_world', flags=5)
+    # (e) warnings are not errors unless asked: one-step without -o (-> assemble_and_run), and with -o
+    for prog in ('warn', 'warn_stl'):
+        add('warning-one-step', prog, outfile=False, debug='temp', werror=False)
+        add('warning-one-step', prog, outfile=False, debug='temp', werror=False, silent=False)
+        add('warning-with-outfile', prog, werror=False)
+        add('warning-as-error', prog, werror=True)
+        add('warning-as-error', prog, outfile=False, debug='temp', werror=True)
+    # the documented defaults, one option at a time
+    add('defaults', 'hello_world')
+    add('defaults', 'hello_world', outfile=False, debug='temp')
+    add('defaults', 'hello_no_stl')
+    add('defaults', 'hello_world', width=32, version=1, debug='path', max_depth=50)
+    return out
+
+
 def argv_of(o, files, outfile, debug, mode):
     """the command line of one invocation. mode: onestep | asm | run"""
     a = []
@@ -111,12 +146,19 @@ def argv_of(o, files, outfile, debug, mode):
     return a
 
 
-def api_expressible(o):
+def quickstart_expressible(o):
     """flipjump_quickstart.assemble + run when an output file is asked for (no temporary debug file there);
     assemble_and_run otherwise - it always produces a temporary debug file, i.e. it is `fj files -d`"""
     if o['flags'] not in (None, 0) or o['preset'] not in (None, 6):
         return False
     return (o['debug'] != 'temp') if o['outfile'] else (o['debug'] == 'temp')
+
+
+def api_expressible(o):
+    """the black-box API route: as above, and with -f / --lzma_preset through Writer(...) + assembler.assemble(...)"""
+    if o['outfile']:
+        return o['debug'] != 'temp'
+    return o['debug'] == 'temp' and o['flags'] in (None, 0) and o['preset'] in (None, 6)
 
 
 def norm_stdout(text, casedir):
@@ -192,7 +234,9 @@ def black_box(ctx, case, progs, casedir):
     if api_expressible(o):
         opts = {'width': o['width'], 'version': o['version'], 'no_stl': o['no_stl'], 'werror': o['werror'],
                 'silent': o['silent'], 'max_depth': o['max_depth'], 'outfile': 'r3/out.fjm',
-                'debug': 'r3/d.fjd' if o['debug'] == 'path' else None}
+                'debug': 'r3/d.fjd' if o['debug'] == 'path' else None,
+                'flags': o['flags'] if o['flags'] not in (None, 0) else None,
+                'preset': o['preset'] if o['preset'] not in (None, 6) else None}
         r3 = run_api(ctx, {'files': ['prog.fj'], 'options': opts, 'combined': not o['outfile']}, casedir, stdin)
         obs['api'] = {'rc': r3['rc'], 'stdout': norm_stdout(r3['out'], casedir), 'res': r3['res'],
                       'fjm': rd(casedir / 'r3/out.fjm'), 'fjd': rd(casedir / 'r3/d.fjd')}
@@ -231,7 +275,7 @@ def compare_black_box(ctx, case, obs):
         if o['outfile']:
             if ref['fjm'] != api['fjm'] and not (api_failed and ref['rc'] != 0):
                 bad.append(({'kind': 'fjm-differs', 'routes': 'cli/api'},
-                            f'{ident()}: .fjm of the command line is {sha(ref["fjm"])}, of flipjump_quickstart.assemble {sha(api["fjm"])}'
+                            f'{ident()}: .fjm of the command line is {sha(ref["fjm"])}, of the Python API {sha(api["fjm"])}'
                             f' ({api["res"]})'))
             if o['debug'] == 'path' and ref['fjd'] != api['fjd'] and not api_failed:
                 bad.append(({'kind': 'fjd-differs', 'routes': 'cli/api'}, f'{ident()}: debug file {sha(ref["fjd"])} vs {sha(api["fjd"])}'))
@@ -264,7 +308,7 @@ def record_request(case, progs, casedir):
         'argv_onestep': argv_of(o, ['prog.fj'], 'b/out.fjm' if o['outfile'] else None, dbg, 'onestep'),
         'argv_asm': argv_of(o, ['prog.fj'], 'b/out.fjm', dbg, 'asm') if two else None,
         'argv_run': argv_of(o, ['b/out.fjm'], None, dbg, 'run') if two else None,
-        'api': api_expressible(o), 'api_out': 'b/out.fjm', 'combined': not o['outfile'],
+        'api': quickstart_expressible(o), 'api_out': 'b/out.fjm', 'combined': not o['outfile'],
         'options': {'width': o['width'], 'version': o['version'], 'no_stl': o['no_stl'], 'werror': o['werror'],
                     'silent': o['silent'], 'max_depth': o['max_depth'],
                     'debug': 'b/d.fjd' if o['debug'] == 'path' else None},
@@ -379,8 +423,8 @@ def run(ctx):
         ctx.coverage['discharged'] += tie_thms
 
     progs = load_programs()
-    n = int(os.environ.get('FJVERIF_C20_N', '0')) or ctx.n(120, 2500)
-    cases = [gen_case(ctx.rng, progs, i) for i in range(n)]
+    n = int(os.environ.get('FJVERIF_C20_N', '0')) or ctx.n(90, 2500)
+    cases = directed_cases(progs, 100000) + [gen_case(ctx.rng, progs, i) for i in range(n)]
     work = ctx.scratch / 'work'
 
     # ---- black box: every route in its own subprocesses ----
@@ -401,6 +445,7 @@ def run(ctx):
         ctx.count(json.dumps([case['prog'], o], sort_keys=True), nontrivial)
         ctx.hist('routes_compared', '+'.join(routes))
         ctx.hist('program', case['prog'])
+        ctx.hist('family', case.get('family', 'random'))
         ctx.hist('onestep_exit', obs['onestep']['rc'])
         for k in ('width', 'version', 'preset', 'debug', 'flags', 'max_depth'):
             ctx.hist(f'opt_{k}', o[k])
@@ -427,7 +472,12 @@ def run(ctx):
     terms, owners = [], []
     for ch, out in zip(chunks, outs):
         for i, routes in zip(ch, out):
-            terms.append(case_term(cases[i], rqs[i], routes, stl_paths))
+            try:
+                terms.append(case_term(cases[i], rqs[i], routes, stl_paths))
+            except Exception as ex:  # noqa - a recorded structure of unexpected shape is a broken tie, not a crash
+                ctx.broken_tie('T-corr: a recorded call does not have the modelled shape (Model/Cli.v)',
+                               f'{cases[i]["prog"]} {cases[i]["opts"]}: {type(ex).__name__}: {ex}')
+                continue
             owners.append((i, routes))
             for r in routes:
                 ctx.hist('recorded_routes', r)
@@ -440,10 +490,13 @@ def run(ctx):
         ident = f'{case["prog"]} {json.dumps({k: v for k, v in case["opts"].items() if v is not None and v is not False}, sort_keys=True)}'
         if sp is False:
             # the spec, evaluated on the calls the implementation really made, is false: a genuine violation
-            rc, which = fw.coq_eval_term(ctx, f'c20_diag{i}', HEADER, f'(same_calls ({t}), spec_defaults ({t}))')
-            ctx.violation({'kind': 'calls-differ-or-wrong-default', 'detail': which[-30:]},
-                          f'{ident}: the routes do not make the same calls / do not use the documented defaults '
-                          f'(same_calls, documented_defaults) = {which[-30:]}: {json.dumps(recs)[:900]}',
+            rc, which = fw.coq_eval_term(ctx, f'c20_diag{i}', HEADER,
+                                         f'(same_calls ({t}), spec_defaults ({t}), spec_honoured ({t}))')
+            which = which[-45:]
+            ctx.violation({'kind': 'calls-differ-or-wrong-default-or-option-dropped', 'detail': which},
+                          f'{ident}: the routes do not make the same calls / do not use the documented defaults / do not '
+                          f'pass an option the user gave (same_calls, documented_defaults, options_honoured) {which}: '
+                          f'{json.dumps(recs)[:900]}',
                           {'case': case, 'source': progs[case['prog']][0], 'recorded': recs,
                            'how': './check C20 --replay <this file>'})
         if okv is False:
@@ -494,9 +547,11 @@ def replay(ctx, path):
     rq = record_request(case, progs, ctx.scratch / 'replay')
     routes = fw.run_worker(ctx, 'cli', {'mode': 'record', 'cases': [rq]}, extra_env=tmp_env(ctx.scratch))[0]
     t = case_term(case, rq, routes, stl_paths_of_repo())
-    rc, verdict = fw.coq_eval_term(ctx, 'c20_replay', HEADER, f'(same_calls ({t}), spec_defaults ({t}), check_case ({t}))')
-    print('  required: (routes make the same calls, documented defaults are used, calls are what Model/Cli.v computes) = (true, true, true)')
-    print(f'  observed: {verdict[-60:]}')
+    rc, verdict = fw.coq_eval_term(ctx, 'c20_replay', HEADER,
+                                   f'(same_calls ({t}), spec_defaults ({t}), spec_honoured ({t}), check_case ({t}))')
+    print('  required: (routes make the same calls, documented defaults are used, every given option reaches the callee, '
+          'calls are what Model/Cli.v computes) = (true, true, true, true)')
+    print(f'  observed: {verdict[-75:]}')
     for r, parts in routes.items():
         for p_ in parts:
             w = p_['rec'].get('writer')
@@ -505,6 +560,6 @@ def replay(ctx, path):
                 print(f'    {r}: Writer(width={w["width"]}, version={w["version"]}, flags={w["flags"]}, preset={w["preset"]}) '
                       f'assemble(first file={a["files"][0][0] if a["files"] else None}, werror={a["werror"]}, '
                       f'max_depth={a["max_depth"]}, debug={a["debug"]})')
-    white_bad = 'false' in verdict[-60:]
+    white_bad = 'false' in verdict[-75:]
     print('  -> ' + ('VIOLATION reproduced' if bad or white_bad else 'no difference on this tree'))
     return 1 if bad or white_bad else 0
